@@ -395,12 +395,9 @@ static void FuncCOSH(TempResult* pResult, TempResult const* pArgs, unsigned ArgC
 static void FuncTANH(TempResult* pResult, TempResult const* pArgs, unsigned ArgCnt) {
     UNUSED(ArgCnt);
 
-    if (pArgs[0].Contents.Float > 709) {
-        as_tempres_set_none(pResult);
-        WrError(ErrNum_FloatOverflow);
-    } else {
-        as_tempres_set_float(pResult, tanh(pArgs[0].Contents.Float));
-    }
+    /* (bounded by -1 and 1: there is no argument for which it overflows) */
+
+    as_tempres_set_float(pResult, tanh(pArgs[0].Contents.Float));
 }
 
 static void FuncCOTH(TempResult* pResult, TempResult const* pArgs, unsigned ArgCnt) {
